@@ -188,15 +188,18 @@ func classify(body []byte) (class string, unmarshals bool) {
 	}
 	typ, hasType := int64(0), false
 	exts := map[int][]byte{}
+	badExt := map[int]bool{}
 	for _, f := range fs {
-		if f.num == 1 {
-			if f.wire != 0 {
-				return "not-a-command", false
-			}
+		// a known field with another wire type is skipped as unknown by the decoder
+		if f.num == 1 && f.wire == 0 {
 			typ, hasType = int64(int32(f.v)), true
 		}
-		if f.num >= 100 && f.wire == 2 {
-			exts[f.num] = f.b
+		if f.num >= 100 {
+			if f.wire == 2 {
+				exts[f.num] = f.b
+			} else {
+				badExt[f.num] = true
+			}
 		}
 	}
 	if !hasType {
@@ -206,6 +209,9 @@ func classify(body []byte) (class string, unmarshals bool) {
 		return "unknown-command-type", true
 	}
 	sub, has := exts[ExtField(int(typ))]
+	if !has && badExt[ExtField(int(typ))] {
+		return "undecodable-extension", true
+	}
 	if !has {
 		for n := range exts {
 			if _, known := TypeName[n-100]; known {
@@ -368,7 +374,7 @@ func randomBody(g *rand.Rand, types []int) ([]byte, string) {
 	var p PB
 	t := types[g.Intn(len(types))]
 	tv := uint64(t)
-	if g.Intn(4) == 0 {
+	if g.Intn(8) == 0 {
 		tv = uint64(g.Intn(300))
 	}
 	if g.Intn(8) != 0 {
@@ -407,6 +413,9 @@ func randomBody(g *rand.Rand, types []int) ([]byte, string) {
 }
 
 // buildBodies returns the case list of this run (deterministic in the seed).
+// The quick tier takes one mutation of every kind per command type; the
+// thorough tier takes every field boundary, every other command's extension
+// and three argument variants.
 func buildBodies(g *rand.Rand, thorough bool) []*execCase {
 	var out []*execCase
 	seen := map[string]bool{}
@@ -430,7 +439,8 @@ func buildBodies(g *rand.Rand, thorough bool) []*execCase {
 	for ti, t := range types {
 		for v := 0; v < variants; v++ {
 			w := wellFormed(t, v)
-			if t == TypeSetData {
+			switch t {
+			case TypeSetData:
 				add("well-formed", t, w, func(wk *worker) []byte {
 					d, err := wk.data()
 					if err != nil {
@@ -438,17 +448,19 @@ func buildBodies(g *rand.Rand, thorough bool) []*execCase {
 					}
 					return CmdSetData(EncodeData(d, nil))
 				})
-			} else if t == TypeSetMetaNode {
+			case TypeSetMetaNode:
 				add("well-formed", t, w, func(wk *worker) []byte { return CmdSetMetaNode(wk.httpAddr, wk.raftAddr, 7) })
-			} else {
+			default:
 				add("well-formed", t, w, nil)
 			}
 			typePart, extKey, sub := splitCommand(w)
 			add("extension-removed", t, append([]byte(nil), typePart...), nil)
 			// another command's extension
-			others := []int{types[(ti+1)%len(types)], types[g.Intn(len(types))]}
+			others := []int{types[(ti+1+g.Intn(len(types)-1))%len(types)]}
 			if thorough && v == 0 {
-				others = types
+				for k := 0; k < 8; k++ {
+					others = append(others, types[g.Intn(len(types))])
+				}
 			}
 			for _, u := range others {
 				if u == t {
@@ -458,30 +470,38 @@ func buildBodies(g *rand.Rand, thorough bool) []*execCase {
 				add("extension-of-"+TypeName[u], t, reframe(typePart, uk, us), nil)
 			}
 			// unknown type number in front of this command's extension
-			var up PB
-			up.Uint64(1, uint64(35+g.Intn(60)))
-			add("unknown-type-with-extension", t, reframe(up.B, extKey, sub), nil)
+			if thorough || ti%4 == 0 {
+				var up PB
+				up.Uint64(1, uint64(35+g.Intn(60)))
+				add("unknown-type-with-extension", t, reframe(up.B, extKey, sub), nil)
+			}
 			// raw truncation at every field boundary of the outer and inner message
-			offs := map[int]bool{len(typePart): true, len(typePart) + len(extKey): true, len(w) - len(sub): true}
+			offs := []int{len(typePart), len(typePart) + len(extKey), len(w) - len(sub)}
 			inner, _ := parseFields(sub)
 			pos := len(w) - len(sub)
 			for _, f := range inner {
 				pos += len(f.raw)
-				offs[pos] = true
+				offs = append(offs, pos)
 			}
-			for off := range offs {
+			for _, off := range offs {
 				if off < len(w) {
 					add(fmt.Sprintf("truncated-raw@%d", off), t, append([]byte(nil), w[:off]...), nil)
 				}
 			}
-			// the extension cut at every inner field boundary, outer length fixed up
+			// the extension cut at an inner field boundary, outer length fixed up
+			pick := -1
+			if len(inner) > 0 {
+				pick = g.Intn(len(inner))
+			}
 			cut := 0
 			for k := 0; k < len(inner); k++ {
-				add(fmt.Sprintf("extension-cut-after-%d-fields", k), t, reframe(typePart, extKey, sub[:cut]), nil)
+				if thorough || k == pick {
+					add(fmt.Sprintf("extension-cut-after-%d-fields", k), t, reframe(typePart, extKey, sub[:cut]), nil)
+				}
 				cut += len(inner[k].raw)
 			}
-			// one required inner field dropped from the middle
-			if len(inner) >= 2 {
+			// one inner field dropped from the middle
+			if thorough && len(inner) >= 2 {
 				k := g.Intn(len(inner) - 1)
 				var s2 []byte
 				for i, f := range inner {
@@ -493,15 +513,17 @@ func buildBodies(g *rand.Rand, thorough bool) []*execCase {
 			}
 		}
 	}
-	for _, v := range []uint64{0, 7, 20, 35, 36, 99, 100, 127, 128, 255, 1000, 1<<31 - 1, 1 << 31, 1<<32 + 3, 1<<64 - 1} {
+	for i, v := range []uint64{0, 7, 20, 35, 36, 99, 100, 127, 128, 255, 1000, 1<<31 - 1, 1 << 31, 1<<32 + 3, 1<<64 - 1} {
 		var p PB
 		p.Uint64(1, v)
 		add("unknown-type", 0, append([]byte(nil), p.B...), nil)
-		_, k, s := splitCommand(wellFormed(TypeCreateDatabase, 0))
-		add("unknown-type-with-extension", 0, reframe(p.B, k, s), nil)
+		if thorough || i%4 == 1 {
+			_, k, s := splitCommand(wellFormed(TypeCreateDatabase, 0))
+			add("unknown-type-with-extension", 0, reframe(p.B, k, s), nil)
+		}
 	}
 	add("empty-body", 0, []byte{}, nil)
-	nRandom := 140
+	nRandom := 90
 	if thorough {
 		nRandom = 2500
 	}
@@ -509,6 +531,8 @@ func buildBodies(g *rand.Rand, thorough bool) []*execCase {
 		b, kind := randomBody(g, types)
 		add(kind, 0, b, nil)
 	}
+	// spread the kinds over the run (and over the lanes)
+	g.Shuffle(len(out), func(i, j int) { out[i], out[j] = out[j], out[i] })
 	for i, c := range out {
 		c.ID = fmt.Sprintf("exec/%d", i)
 	}
@@ -535,26 +559,38 @@ func setupBodies() [][]byte {
 type lane struct {
 	id    int
 	base  string
-	n     int // workers created
 	w     *worker
 	canon string // canonConv of the worker's metadata after the last surviving body
 	since int    // bodies since the last restart check
+	next  chan *worker
+	stop  chan struct{}
 }
 
-// fresh replaces the lane's worker by a new one on a new directory and runs
-// the set-up commands. ok=false: could not get a working node (inconclusive).
-func (l *lane) fresh() bool {
-	if l.w != nil {
-		l.w.kill()
-		os.RemoveAll(l.w.dir)
-	}
+var workerSeq struct {
+	sync.Mutex
+	n int
+}
+
+// spawn starts a worker on a new directory and runs the set-up commands.
+// nil: could not get a working node.
+func spawn(base string) *worker {
 	for try := 0; try < 3; try++ {
-		l.n++
-		w := newWorker(filepath.Join(l.base, fmt.Sprintf("lane%d-w%d", l.id, l.n)))
-		switch w.start(120 * time.Second) {
-		case startReady:
-		default:
-			rep, _, _ := w.crashReport()
+		workerSeq.Lock()
+		workerSeq.n++
+		n := workerSeq.n
+		workerSeq.Unlock()
+		t0 := time.Now()
+		w := newWorker(filepath.Join(base, fmt.Sprintf("w%d", n)))
+		if res := w.start(120 * time.Second); res != startReady {
+			rep := ""
+			if res == startSlow {
+				rep = w.dump()
+				if nestedRLockDeadlock(rep) {
+					reportStartDeadlock("spawn", rep)
+				}
+			} else {
+				rep, _, _ = w.crashReport()
+			}
 			w.kill()
 			r.Inconclusive(fmt.Sprintf("(c) a fresh worker did not come up: %s", firstLine(rep)))
 			os.RemoveAll(w.dir)
@@ -577,14 +613,81 @@ func (l *lane) fresh() bool {
 			os.RemoveAll(w.dir)
 			continue
 		}
-		l.w = w
-		l.since = 0
-		l.refresh()
 		r.Count("c_workers_started", 1)
-		return true
+		if os.Getenv("C07_TRACE") != "" {
+			fmt.Fprintf(os.Stderr, "   fresh worker %d ready after %v\n", n, time.Since(t0))
+		}
+		return w
 	}
-	l.w = nil
-	return false
+	return nil
+}
+
+func reportStartDeadlock(where, dump string) {
+	if len(dump) > 12000 {
+		dump = dump[:12000]
+	}
+	r.Count("c_start_deadlocks_observed", 1)
+	r.Violation("C07/restart-hangs/store-peers-nested-rlock-vs-fsm-apply", "exec/"+where,
+		"a single-server meta node never finished opening: store.peers() (called by store.open) holds s.mu.RLock and blocks in the nested RLock of store.leader() because storeFSM.Apply, replaying the log, waits for s.mu.Lock in between",
+		map[string]interface{}{"goroutine_dump": dump})
+}
+
+// prefetch keeps one ready worker in stock so that a crash does not stall the lane.
+func (l *lane) prefetch() {
+	l.next = make(chan *worker, 1)
+	l.stop = make(chan struct{})
+	go func() {
+		for {
+			select {
+			case <-l.stop:
+				close(l.next)
+				return
+			default:
+			}
+			w := spawn(l.base)
+			select {
+			case l.next <- w:
+				if w == nil {
+					close(l.next)
+					return
+				}
+			case <-l.stop:
+				if w != nil {
+					w.kill()
+				}
+				close(l.next)
+				return
+			}
+		}
+	}()
+}
+
+func (l *lane) shutdown() {
+	close(l.stop)
+	for w := range l.next {
+		if w != nil {
+			w.kill()
+		}
+	}
+	if l.w != nil {
+		l.w.kill()
+	}
+}
+
+// fresh replaces the lane's worker by a new one (new directory, set-up done).
+// ok=false: could not get a working node (inconclusive).
+func (l *lane) fresh() bool {
+	if l.w != nil {
+		l.w.kill()
+		os.RemoveAll(l.w.dir)
+	}
+	l.w = <-l.next
+	if l.w == nil {
+		return false
+	}
+	l.since = 0
+	l.refresh()
+	return true
 }
 
 func firstLine(s string) string {
@@ -646,8 +749,11 @@ func (l *lane) restartCheck(lastCase string) bool {
 			map[string]interface{}{"crash_report": rep, "last_case": lastCase})
 		return l.fresh()
 	case startSlow:
-		l.w.kill()
-		r.Inconclusive("(c) restarted worker was not ready within the watchdog")
+		if d := l.w.dump(); nestedRLockDeadlock(d) {
+			reportStartDeadlock(strings.TrimPrefix(lastCase, "exec/"), d)
+		} else {
+			r.Inconclusive("(c) restarted worker was not ready within the watchdog")
+		}
 		return l.fresh()
 	}
 	d1, err := l.w.data()
@@ -685,6 +791,11 @@ func panicClass(kind string) string {
 	return "other-panic"
 }
 
+var confirmSeq = struct {
+	sync.Mutex
+	n map[string]int
+}{n: map[string]int{}}
+
 type wedgeWitness struct {
 	Case        *execCase `json:"case"`
 	Status      int       `json:"http_status,omitempty"`
@@ -710,8 +821,23 @@ func (l *lane) runCase(c *execCase) bool {
 	r.Eval(1)
 	r.Count("c_bodies_posted", 1)
 	r.Count("c_kind_"+kindClass(c.Kind), 1)
+	tPost := time.Now()
 	status, resp, err := l.w.post(body)
-	alive := err == nil && l.w.ping()
+	alive := err == nil
+	if alive && status != 400 {
+		// hashicorp/raft answers the apply future from a deferred call, also
+		// when FSM.Apply panics: the 200 can arrive before the process is gone.
+		// A following no-op command (legacy UpdateNode) is applied by the same
+		// FSM goroutine strictly after the body under test: its success proves
+		// the state machine got past the body.
+		bst, _, berr := l.w.post(CmdUpdateNode(0, "barrier"))
+		alive = berr == nil && bst == 200
+		r.Count("c_barrier_commands", 1)
+	}
+	alive = alive && l.w.ping()
+	if os.Getenv("C07_TRACE") != "" {
+		fmt.Fprintf(os.Stderr, "   %s lane %d worker %s post+ping took %v status=%d err=%v alive=%v body=%s\n", c.ID, l.id, filepath.Base(l.w.dir), time.Since(tPost), status, err, alive, hexShort(body))
+	}
 	if !alive {
 		if !l.w.died(20 * time.Second) {
 			// alive as a process but not answering
@@ -723,11 +849,15 @@ func (l *lane) runCase(c *execCase) bool {
 			}
 		}
 	}
-	if alive {
-		if unm {
-			r.Count("c_bodies_accepted_by_validation", 1)
-			r.Nontrivial("c/" + c.Hex)
+	if (alive && status != 400) || !alive {
+		// the endpoint's validation let the body through to the raft log
+		r.Count("c_bodies_accepted_by_validation", 1)
+		r.Nontrivial("c/" + c.Hex)
+		if !unm {
+			r.Count("c_accepted_bodies_the_harness_parser_rejects", 1)
 		}
+	}
+	if alive {
 		switch {
 		case status == 200:
 			msg, idx, ok := execResponse(resp)
@@ -760,6 +890,12 @@ func (l *lane) runCase(c *execCase) bool {
 	}
 
 	// ---- the worker died
+	tDied := time.Now()
+	defer func() {
+		if os.Getenv("C07_TRACE") != "" {
+			fmt.Fprintf(os.Stderr, "   %s crash path took %v\n", c.ID, time.Since(tDied))
+		}
+	}()
 	rep, kind, inMeta := l.w.crashReport()
 	r.Count("c_worker_deaths", 1)
 	if kind == "" {
@@ -776,8 +912,25 @@ func (l *lane) runCase(c *execCase) bool {
 	if err != nil {
 		wit.PostError = err.Error()
 	}
-	// is the entry in the log now? restart on the same directory
-	switch l.w.start(120 * time.Second) {
+	sig := "C07/execute-wedges-log/" + class
+	// is the entry in the log now? restart on the same directory (the first
+	// deaths of every class and every 5th afterwards; a process start is the
+	// expensive part of this monitor)
+	confirmSeq.Lock()
+	confirmSeq.n[class]++
+	nth := confirmSeq.n[class]
+	confirmSeq.Unlock()
+	if !(r.Thorough() && nth <= 10) && nth > 2 && nth%5 != 0 {
+		wit.Wedged = "was not restarted (sampled)"
+		r.Violation(sig, c.ID, fmt.Sprintf("the meta node died after POST /execute of %d bytes (%s, %s): %s", len(body), c.Kind, hexShort(body), kind), wit)
+		r.Count("c_deaths_class_"+strings.SplitN(class, "/", 2)[0], 1)
+		return l.fresh()
+	}
+	sr := l.w.start(90 * time.Second)
+	if os.Getenv("C07_TRACE") != "" {
+		fmt.Fprintf(os.Stderr, "   %s restart-same-dir result %d after %v\n", c.ID, sr, time.Since(tDied))
+	}
+	switch sr {
 	case startDied:
 		rep2, kind2, _ := l.w.crashReport()
 		if kind2 != "" {
@@ -799,8 +952,11 @@ func (l *lane) runCase(c *execCase) bool {
 		}
 	default:
 		wit.Wedged = "not ready within the watchdog"
+		if d := l.w.dump(); nestedRLockDeadlock(d) {
+			wit.Wedged = "hung while opening (deadlock between store.peers and storeFSM.Apply)"
+			reportStartDeadlock(strings.TrimPrefix(c.ID, "exec/"), d)
+		}
 	}
-	sig := "C07/execute-wedges-log/" + class
 	what := fmt.Sprintf("the meta node died after POST /execute of %d bytes (%s, %s): %s; restarted on the same directory it %s",
 		len(body), c.Kind, hexShort(body), kind, wit.Wedged)
 	r.Violation(sig, c.ID, what, wit)
@@ -834,8 +990,15 @@ func runWedge() {
 	base := ev.TempDir("c07w")
 	defer os.RemoveAll(base)
 	cases := buildBodies(r.Rand("wedge"), r.Thorough())
+	if v := os.Getenv("C07_WEDGE_MAX"); v != "" {
+		var n int
+		fmt.Sscan(v, &n)
+		if n < len(cases) {
+			cases = cases[:n]
+		}
+	}
 	r.Count("c_bodies_generated", int64(len(cases)))
-	nLanes := 6
+	nLanes := 8
 	if rc := r.ReplayCase(); rc != "" {
 		if !strings.HasPrefix(rc, "exec/") {
 			return
@@ -851,6 +1014,8 @@ func runWedge() {
 		go func(li int) {
 			defer wg.Done()
 			l := &lane{id: li, base: base}
+			l.prefetch()
+			defer l.shutdown()
 			ok := false
 			var last string
 			for i, c := range cases {
@@ -866,16 +1031,15 @@ func runWedge() {
 						return
 					}
 				}
+				t0 := time.Now()
 				ok = l.runCase(c)
 				last = c.ID
-			}
-			if ok && l.w != nil {
-				if l.since > 0 {
-					l.restartCheck(last)
+				if os.Getenv("C07_TRACE") != "" {
+					fmt.Fprintf(os.Stderr, "lane %d %s %s class=%s took %v\n", li, c.ID, c.Kind, c.Class, time.Since(t0))
 				}
 			}
-			if l.w != nil {
-				l.w.kill()
+			if ok && l.w != nil && l.since > 0 {
+				l.restartCheck(last)
 			}
 		}(li)
 	}
